@@ -1,0 +1,12 @@
+//go:build !verif
+
+// Package simhook contains scheduling-point hooks for deterministic simulation.
+//
+// Without the "verif" build tag all hooks are empty functions.
+package simhook
+
+// Yield marks a scheduling point.
+func Yield(site, key string) {}
+
+// Buggify returns true if the simulator wants the unusual-but-legal path at site.
+func Buggify(site string) bool { return false }
